@@ -31,8 +31,18 @@ type X struct {
 	caseOf map[ast.Expr]*ast.SwitchStmt
 	synth  map[ast.Expr]ast.Expr
 	loops  []ast.Stmt
+	inLoop map[ast.Node]ast.Stmt
+	assume func(ast.Expr) int // set while a Reach query with an assumption runs
 	// Prog enables the inlining of same-package helper predicates in Table.
 	Prog *core.Program
+	// ZeroInit: boolean locals that start with the zero value without an assignment statement
+	// (named results of the function and of the helpers inlined into its view).
+	ZeroInit map[types.Object]bool
+	// Deps (filled by Table): for an existential in-loop atom, the in-loop atoms that are true on
+	// every path that tests it (`if isRoleLine(l) { if isMaster(l) {..} }`: master implies role-line).
+	Deps map[string]map[string]bool
+	// Named: the named results of the analysed function (for bare returns).
+	Named []*ast.Ident
 	// LoopDecisions: the head test of a `for` statement is a loop decision (enter / done) and not a
 	// branch literal (set for predicates whose loops scan a list).
 	LoopDecisions bool
@@ -62,8 +72,57 @@ func New(g *cfgq.Graph) *X {
 	return x
 }
 
-// LoopOf returns the innermost loop statement whose body contains n.
+// LoopOf returns the innermost loop statement whose body contains n. The
+// containment is structural (the body may be an inlined view whose nodes come
+// from several functions); for a node that is not part of the body tree (a
+// synthesised condition) the position is used.
 func (x *X) LoopOf(n ast.Node) ast.Stmt {
+	if x.inLoop == nil {
+		x.inLoop = map[ast.Node]ast.Stmt{}
+		var stack []ast.Stmt // innermost loop whose BODY we are in
+		var walk func(n ast.Node, cur ast.Stmt)
+		walk = func(n ast.Node, cur ast.Stmt) {
+			ast.Inspect(n, func(m ast.Node) bool {
+				if m == nil {
+					return false
+				}
+				if _, isLit := m.(*ast.FuncLit); isLit && m != n {
+					return false
+				}
+				if _, seen := x.inLoop[m]; !seen {
+					x.inLoop[m] = cur
+				}
+				switch s := m.(type) {
+				case *ast.ForStmt:
+					if m != n {
+						for _, part := range []ast.Node{s.Init, s.Cond, s.Post} {
+							if part != nil && !isNilNode(part) {
+								walk(part, cur)
+							}
+						}
+						walk(s.Body, s)
+						return false
+					}
+				case *ast.RangeStmt:
+					if m != n {
+						for _, part := range []ast.Node{s.Key, s.Value, s.X} {
+							if part != nil && !isNilNode(part) {
+								walk(part, cur)
+							}
+						}
+						walk(s.Body, s)
+						return false
+					}
+				}
+				return true
+			})
+		}
+		_ = stack
+		walk(x.G.Body, nil)
+	}
+	if l, ok := x.inLoop[n]; ok {
+		return l
+	}
 	var best ast.Stmt
 	for _, l := range x.loops {
 		var body *ast.BlockStmt
@@ -80,6 +139,16 @@ func (x *X) LoopOf(n ast.Node) ast.Stmt {
 		}
 	}
 	return best
+}
+
+func isNilNode(n ast.Node) bool {
+	switch v := n.(type) {
+	case ast.Expr:
+		return v == nil
+	case ast.Stmt:
+		return v == nil
+	}
+	return false
 }
 
 // Cond returns the boolean condition that decides the two successors of b
@@ -153,7 +222,76 @@ func (x *X) Facts(e ast.Expr, val bool) []cfgq.Fact {
 			}
 		}
 	}
+	if r := x.lenSum(e); r != nil {
+		return x.Facts(r, val)
+	}
 	return []cfgq.Fact{{Expr: e, Val: val}}
+}
+
+// lenSum rewrites a comparison of a sum of lengths with a constant into the equivalent boolean
+// combination of emptiness tests: `len(a)+len(b) < 1` is `len(a) == 0 && len(b) == 0`,
+// `len(a)+len(b) > 0` is `len(a) != 0 || len(b) != 0` (any operand order, any of the six
+// comparison operators as far as it says "sum is zero" / "sum is not zero").
+func (x *X) lenSum(e ast.Expr) ast.Expr {
+	if r, ok := x.synth[e]; ok {
+		return r
+	}
+	be, ok := ast.Unparen(e).(*ast.BinaryExpr)
+	if !ok {
+		return nil
+	}
+	var terms func(e ast.Expr) []ast.Expr
+	terms = func(e ast.Expr) []ast.Expr {
+		e = ast.Unparen(e)
+		if b, ok := e.(*ast.BinaryExpr); ok && b.Op == token.ADD {
+			l, r := terms(b.X), terms(b.Y)
+			if l == nil || r == nil {
+				return nil
+			}
+			return append(l, r...)
+		}
+		if call, ok := e.(*ast.CallExpr); ok && len(call.Args) == 1 {
+			if id, ok := call.Fun.(*ast.Ident); ok && id.Name == "len" {
+				return []ast.Expr{e}
+			}
+		}
+		return nil
+	}
+	konst := func(e ast.Expr) (int64, bool) { return core.IntConst(x.Info, ast.Unparen(e)) }
+	op, sum, k := be.Op, be.X, be.Y
+	if _, isConst := konst(be.X); isConst {
+		sum, k = be.Y, be.X
+		op = map[token.Token]token.Token{token.LSS: token.GTR, token.GTR: token.LSS, token.LEQ: token.GEQ, token.GEQ: token.LEQ, token.EQL: token.EQL, token.NEQ: token.NEQ}[op]
+	}
+	ts := terms(sum)
+	kv, isConst := konst(k)
+	if len(ts) < 2 || !isConst {
+		return nil
+	}
+	zero := false
+	switch {
+	case op == token.LSS && kv == 1, op == token.LEQ && kv == 0, op == token.EQL && kv == 0:
+		zero = true
+	case op == token.GTR && kv == 0, op == token.GEQ && kv == 1, op == token.NEQ && kv == 0:
+	default:
+		return nil
+	}
+	var out ast.Expr
+	for _, t := range ts {
+		cmp := ast.Expr(&ast.BinaryExpr{X: t, OpPos: be.OpPos, Op: token.NEQ, Y: &ast.BasicLit{ValuePos: be.OpPos, Kind: token.INT, Value: "0"}})
+		joiner := token.LOR
+		if zero {
+			cmp.(*ast.BinaryExpr).Op = token.EQL
+			joiner = token.LAND
+		}
+		if out == nil {
+			out = cmp
+		} else {
+			out = &ast.BinaryExpr{X: out, OpPos: be.OpPos, Op: joiner, Y: cmp}
+		}
+	}
+	x.synth[e] = out
+	return out
 }
 
 // EdgeFacts returns the atoms implied by leaving b through successor succ.
@@ -311,6 +449,9 @@ func (x *X) shortCircuit(e ast.Expr, val bool) [][]Lit {
 			}
 		}
 	}
+	if r := x.lenSum(e); r != nil {
+		return x.shortCircuit(r, val)
+	}
 	return [][]Lit{{{Expr: e, Val: val, Loop: x.LoopOf(e), Root: x.G.Body, Subst: x.subst}}}
 }
 
@@ -454,6 +595,7 @@ func (x *X) Table(traces []Trace, result int, cls Classifier) ([]Row, error) {
 	// addLits extends every partial row by the literals; a literal that the
 	// classifier does not know and that calls a helper of the same package is
 	// replaced by the helper's own rows (parameters bound to the arguments).
+	guards := map[ast.Stmt][]string{} // per trace: positive in-loop atoms so far
 	addLits := func(ps []*pre, lits []Lit) ([]*pre, error) {
 		for _, l := range lits {
 			l.Expr = x.subst(l.Expr)
@@ -471,6 +613,26 @@ func (x *X) Table(traces []Trace, result int, cls Classifier) ([]Row, error) {
 						loopAtoms[l.Loop] = map[string]bool{}
 					}
 					loopAtoms[l.Loop][a] = true
+					// the in-loop atoms already true on this path guard this one
+					cur := map[string]bool{}
+					for _, g := range guards[l.Loop] {
+						if g != a {
+							cur[g] = true
+						}
+					}
+					if x.Deps == nil {
+						x.Deps = map[string]map[string]bool{}
+					}
+					if old, seen := x.Deps[a]; seen {
+						for g := range old {
+							if !cur[g] {
+								delete(old, g)
+							}
+						}
+					} else {
+						x.Deps[a] = cur
+					}
+					guards[l.Loop] = append(guards[l.Loop], a)
 				}
 				for _, p := range ps {
 					set(p, a, v)
@@ -498,6 +660,116 @@ func (x *X) Table(traces []Trace, result int, cls Classifier) ([]Row, error) {
 		}
 		return ps, nil
 	}
+	// boolean locals assigned on the path stand for the assigned expression (a verdict carried in a
+	// local: `rejected := A(x); if !rejected { rejected = B(x) }; return rejected`)
+	type bind struct {
+		expr ast.Expr
+		env  map[types.Object]*bind
+	}
+	var expandLits func(lits []Lit, env map[types.Object]*bind, depth int) [][]Lit
+	expandLits = func(lits []Lit, env map[types.Object]*bind, depth int) [][]Lit {
+		alts := [][]Lit{nil}
+		for _, l := range lits {
+			var repl [][]Lit
+			if id, ok := ast.Unparen(l.Expr).(*ast.Ident); ok && depth > 0 {
+				b := env[BoolLocal(x.Info, id)]
+				if b == nil && BoolLocal(x.Info, id) != nil && x.ZeroInit[BoolLocal(x.Info, id)] {
+					b = &bind{} // never assigned on this path: false
+				}
+				if b != nil && BoolLocal(x.Info, id) != nil {
+					if bv, isConst := BoolConst(x.Info, b.expr); isConst || b.expr == nil {
+						// a constant (nil: the zero value false): the path is feasible only for that value
+						if bv == l.Val {
+							repl = [][]Lit{{}}
+						} else {
+							repl = [][]Lit{}
+						}
+					} else {
+						repl = [][]Lit{}
+					}
+					var scs [][]Lit
+					if b.expr != nil {
+						if _, isConst := BoolConst(x.Info, b.expr); !isConst {
+							scs = x.shortCircuit(b.expr, l.Val)
+						}
+					}
+					for _, a := range scs {
+						for k := range a {
+							a[k].Loop = l.Loop
+						}
+						repl = append(repl, expandLits(a, b.env, depth-1)...)
+					}
+				}
+			}
+			if repl == nil {
+				repl = [][]Lit{{l}}
+			}
+			var next [][]Lit
+			for _, a := range alts {
+				for _, r := range repl {
+					next = append(next, append(append([]Lit(nil), a...), r...))
+				}
+			}
+			alts = next
+		}
+		return alts
+	}
+	assigned := func(n ast.Node, env map[types.Object]*bind) map[types.Object]*bind {
+		set := func(lhs ast.Expr, rhs ast.Expr) {
+			o := BoolLocal(x.Info, lhs)
+			if o == nil {
+				return
+			}
+			ne := map[types.Object]*bind{}
+			for k, v := range env {
+				ne[k] = v
+			}
+			if rhs == nil {
+				delete(ne, o)
+			} else {
+				ne[o] = &bind{expr: rhs, env: env}
+			}
+			env = ne
+		}
+		setZero := func(lhs ast.Expr) {
+			if o := BoolLocal(x.Info, lhs); o != nil {
+				ne := map[types.Object]*bind{}
+				for k, v := range env {
+					ne[k] = v
+				}
+				ne[o] = &bind{expr: nil, env: env}
+				env = ne
+			}
+		}
+		switch st := n.(type) {
+		case *ast.AssignStmt:
+			for i, l := range st.Lhs {
+				if len(st.Lhs) == len(st.Rhs) && (st.Tok == token.ASSIGN || st.Tok == token.DEFINE) {
+					set(l, st.Rhs[i])
+				} else {
+					set(l, nil)
+				}
+			}
+		case *ast.DeclStmt:
+			if gd, ok := st.Decl.(*ast.GenDecl); ok {
+				for _, sp := range gd.Specs {
+					if vs, ok := sp.(*ast.ValueSpec); ok {
+						for i, nm := range vs.Names {
+							switch {
+							case len(vs.Values) == len(vs.Names):
+								set(nm, vs.Values[i])
+							case len(vs.Values) == 0:
+								setZero(nm)
+							default:
+								set(nm, nil)
+							}
+						}
+					}
+				}
+			}
+		}
+		return env
+	}
 	var pres []*pre
 	for ti := range traces {
 		t := &traces[ti]
@@ -513,14 +785,51 @@ func (x *X) Table(traces []Trace, result int, cls Classifier) ([]Row, error) {
 				p.done = append(p.done, e.Done)
 			}
 		}
-		ps, err := addLits([]*pre{p}, t.Lits())
-		if err != nil {
-			return nil, err
+		ps := []*pre{p}
+		env := map[types.Object]*bind{}
+		cenv := map[types.Object]constant.Value{} // locals holding a constant on this path
+		guards = map[ast.Stmt][]string{}
+		var err error
+		infeasible := false
+		for _, e := range t.Evs {
+			switch {
+			case e.Node != nil:
+				env = assigned(e.Node, env)
+				x.constStep(e.Node, cenv)
+			case e.Lit != nil:
+				if v, known := x.constTest(e.Lit.Expr, cenv); known {
+					if v != e.Lit.Val {
+						infeasible = true
+					}
+					continue // decided by the constant the local holds on this path
+				}
+				var next []*pre
+				for _, alt := range expandLits([]Lit{*e.Lit}, env, 4) {
+					var cp []*pre
+					for _, q := range ps {
+						cp = append(cp, clone(q))
+					}
+					cp, err = addLits(cp, alt)
+					if err != nil {
+						return nil, err
+					}
+					next = append(next, cp...)
+				}
+				ps = next
+			}
 		}
-		if result >= len(t.Ret.Results) {
+		if infeasible {
+			continue
+		}
+		var res ast.Expr
+		switch {
+		case result < len(t.Ret.Results):
+			res = t.Ret.Results[result]
+		case len(t.Ret.Results) == 0 && result < len(x.Named):
+			res = x.Named[result] // bare return of a named result
+		default:
 			return nil, fmt.Errorf("return statement without result %d", result)
 		}
-		res := t.Ret.Results[result]
 		if bv, ok := BoolConst(x.Info, res); ok {
 			for _, q := range ps {
 				q.out = fmt.Sprint(bv)
@@ -529,7 +838,14 @@ func (x *X) Table(traces []Trace, result int, cls Classifier) ([]Row, error) {
 			continue
 		}
 		for _, val := range []bool{true, false} {
-			for _, alt := range x.shortCircuit(res, val) {
+			var alts [][]Lit
+			for _, a := range x.shortCircuit(res, val) {
+				for k := range a {
+					a[k].Loop = nil
+				}
+				alts = append(alts, expandLits(a, env, 4)...)
+			}
+			for _, alt := range alts {
 				var qs []*pre
 				for _, q := range ps {
 					c := clone(q)
@@ -559,6 +875,70 @@ func (x *X) Table(traces []Trace, result int, cls Classifier) ([]Row, error) {
 		}
 	}
 	return rows, nil
+}
+
+// constStep records which locals hold a constant after executing n.
+func (x *X) constStep(n ast.Node, cenv map[types.Object]constant.Value) {
+	set := func(l, r ast.Expr) {
+		id, ok := ast.Unparen(l).(*ast.Ident)
+		if !ok {
+			return
+		}
+		v, ok := core.ObjOf(x.Info, id).(*types.Var)
+		if !ok || v.IsField() || v.Pkg() == nil || v.Parent() == v.Pkg().Scope() {
+			return
+		}
+		if r != nil {
+			if tv, ok := x.Info.Types[ast.Unparen(r)]; ok && tv.Value != nil {
+				cenv[v] = tv.Value
+				return
+			}
+		}
+		delete(cenv, v)
+	}
+	switch st := n.(type) {
+	case *ast.AssignStmt:
+		for i, l := range st.Lhs {
+			if len(st.Lhs) == len(st.Rhs) && (st.Tok == token.ASSIGN || st.Tok == token.DEFINE) {
+				set(l, st.Rhs[i])
+			} else {
+				set(l, nil)
+			}
+		}
+	case *ast.IncDecStmt:
+		set(st.X, nil)
+	case *ast.DeclStmt:
+		if gd, ok := st.Decl.(*ast.GenDecl); ok {
+			for _, sp := range gd.Specs {
+				if vs, ok := sp.(*ast.ValueSpec); ok && len(vs.Values) == len(vs.Names) {
+					for i, nm := range vs.Names {
+						set(nm, vs.Values[i])
+					}
+				}
+			}
+		}
+	}
+}
+
+// constTest decides `v == K` / `v != K` for a local v that holds a constant on the path.
+func (x *X) constTest(e ast.Expr, cenv map[types.Object]constant.Value) (bool, bool) {
+	be, ok := ast.Unparen(e).(*ast.BinaryExpr)
+	if !ok || be.Op != token.EQL && be.Op != token.NEQ {
+		return false, false
+	}
+	for _, pair := range [][2]ast.Expr{{be.X, be.Y}, {be.Y, be.X}} {
+		id, ok := ast.Unparen(pair[0]).(*ast.Ident)
+		if !ok {
+			continue
+		}
+		cv, held := cenv[core.ObjOf(x.Info, id)]
+		tv, isConst := x.Info.Types[ast.Unparen(pair[1])]
+		if !held || !isConst || tv.Value == nil || cv.Kind() != tv.Value.Kind() {
+			continue
+		}
+		return constant.Compare(cv, be.Op, tv.Value), true
+	}
+	return false, false
 }
 
 // inline computes the rows of the helper behind an unrecognised literal, with the helper's
@@ -667,6 +1047,15 @@ func (x *X) inline(l Lit, cls Classifier) ([]Row, error) {
 	}
 	hx := New(hg)
 	hx.Prog, hx.bind, hx.depth, hx.LoopDecisions = x.Prog, bind, x.depth-1, x.LoopDecisions
+	hx.ZeroInit = map[types.Object]bool{}
+	if results != nil {
+		for _, fl := range results.List {
+			for _, n := range fl.Names {
+				hx.Named = append(hx.Named, n)
+				hx.ZeroInit[x.Info.Defs[n]] = true
+			}
+		}
+	}
 	traces, err := hx.Traces(hx.G.CFG.Blocks[0], 0, nil, 200)
 	if err != nil {
 		return nil, err
